@@ -63,7 +63,10 @@ Out(T) == [T |-> T,
            bites |-> Bites(T),
            repairedAgrees |-> NormalizeAgrees("repaired", T),
            failing |-> SetToSeq({<<DirOf(p), f>> : <<p, f>> \in {pf \in Internal \X RefForms : ~AgreesAt("asis", T, pf[1], pf[2])}}),
-           table |-> SetToSeq({[inp |-> i, out |-> Normalize(T, i)] : i \in Inputs(T)})]
+           table |-> SetToSeq({[inp |-> i, out |-> Normalize(T, i)] : i \in Inputs(T)}),
+           \* the same for the "repaired" mode: candidate key of every listed path, reachable keys of every reference
+           candR |-> SetToSeq({[inp |-> Listed(p), out |-> Candidate("repaired", T, p)] : p \in Internal}),
+           reachR |-> SetToSeq({[inp |-> Ref(T, pf[1], pf[2]), out |-> SetToSeq(Reach("repaired", T, Ref(T, pf[1], pf[2])))] : pf \in Internal \X RefForms})]
 
 Export == TLCGet("distinct") >= 0 /\ ndJsonSerialize(IOEnv.VERIF_OUT, SetToSeq({Out(T) : T \in Spellings}))
 =============================================================================
